@@ -28,7 +28,7 @@ theorem gennameL_sim (hle : L ≤ L') (env : PEnv) (md : Maildir) (flags : Optio
   | succ n ih =>
     intro count
     simp only [gennameL]
-    rcases (gennameBufL_Exact (decimalInt env.now ++ [46] ++ decimal env.pid ++ [95] ++ decimal (count + 1) ++ [46] ++ env.host ++
+    rcases (gennameBufL_Exact (decimalInt env.now ++ [46] ++ decimal env.pid ++ [95] ++ decimal ((count + 1) % gennameWrap) ++ [46] ++ env.host ++
         flags.getD [])).mono hle.2.1 with h | h
     · rw [h]; exact Sim.stop_ret _ rfl
     · rw [h]
